@@ -2,7 +2,7 @@
    FULL STATEMENT (decided by the differential check): kept items are never altered by maintenance, removed /
    replaced items are in original or filtered form and stay filtered until rewritten, filters apply to exactly
    the assigned keyspace names on creation and on recovery.  Proved parts are named ..._partial. *)
-From FJ Require Import Bytes Codec Lsm Db MapP.
+From FJ Require Import Bytes Codec Lsm Db Prog MapP FilterP.
 
 (* the stream applies the verdict to the newest version of a key: Keep leaves it untouched, Remove turns it
    into a tombstone with the same seqno, Replace substitutes the value; key and seqno never change *)
@@ -28,5 +28,23 @@ Proof.
   intros d h name H. unfold do_ks. rewrite H. cbn. unfold ks_of. cbn. rewrite N.eqb_refl. eexists. repeat split.
 Qed.
 
+(* the filtered form is a fixed point of the filter (a later compaction does not alter a filtered item), and a filter
+   never changes key or seqno *)
+Theorem C18_filtered_form_stable_partial : forall (f : option frule) (e : ent),
+  (apply_filter f (apply_filter f e) = apply_filter f e) /\
+  (ek (apply_filter f e) = ek e /\ es (apply_filter f e) = es e).
+Proof. intros f e. split; [apply apply_filter_idem|apply apply_filter_slot]. Qed.
+
+(* "staying filtered once observed so until it is written again" is REFUTED for a Remove verdict across a reopen
+   (known finding E17): the item removed by the filter carried the keyspace's highest persisted seqno; the last-level
+   compaction evicts its tombstone, the persisted seqno falls below the journal record, and replay brings the
+   original back.  The same history runs against the implementation in the C18 check (corpus/C18). *)
+Theorem C18_stays_filtered_refuted :
+  let out := snd (run as_is (db_init MPlain [(c18_name, c18_rule)]) c18_witness) in
+  nth 6 out (Ox ObOk) = Ox (ObOpt None) /\ nth 9 out (Ox ObOk) = Ox (ObOpt (Some [170%N])).
+Proof. exact remove_verdict_resurrects. Qed.
+
 Print Assumptions C18_filter_verdicts_partial.
 Print Assumptions C18_assignment_on_create_partial.
+Print Assumptions C18_filtered_form_stable_partial.
+Print Assumptions C18_stays_filtered_refuted.
